@@ -13,14 +13,18 @@ PROP = dict(
     technique='property-based differential testing against an independent TLS stack (capability table probed from both libraries, tuples generated from it)',
     rule='case = (role assignment, version in {TLS1.1,1.2,1.3,DTLS1.0,DTLS1.2}, suite, server identity, client-auth identity or none, key-exchange group, steered signature scheme, '
          'resumption in {none, session-id, RFC5077 ticket, TLS1.3 PSK, TLS1.3 PSK after HelloRetryRequest}, TLS1.3 PSK key-exchange mode in {psk_dhe_ke, psk_ke} (psk_ke: forced at the OpenSSL server by SSL_OP_ALLOW_NO_DHE_KEX + no shared group on the resumed connection and confirmed from the ServerHello; offered by the OpenSSL client), HelloRetryRequest without resumption, EMS setting pair, '
-         'OpenSSL ticket/EtM/max-fragment/root-in-chain options, MatrixSSL receive chunking and send piece size, DTLS path MTU and cookie exchange, payload schedule per connection, close initiator); '
+         'OpenSSL ticket/EtM/max-fragment/root-in-chain options, MatrixSSL receive chunking and send piece size, DTLS path MTU and cookie exchange, payload schedule per connection '
+         '(in ~4% of the cases plus 257..700 small records in one direction under one key set, a record back every 50..199; c10_interop_long (thorough): 65537..66560 one-byte records, i.e. 1- and 2-byte carries of the record sequence number), close initiator); '
          'non-trivial = a completed handshake with at least one payload delivered intact in each direction; distinct by the full parameter tuple per connection',
-    assumptions=['KeyUpdate is outside the domain (MatrixSSL has no KeyUpdate code; C10_KEYUPDATE=1 demonstrates the unexpected_message reaction)',
+    assumptions=['KeyUpdate is outside the domain (MatrixSSL has no KeyUpdate code; C10_KEYUPDATE=1 demonstrates the unexpected_message reaction), so the many-records class stays under one traffic key',
                  'DTLS is driven over a loss-free, in-order datagram link (retransmission/reordering belong to C16); path MTU >= 576 for a MatrixSSL server and >= 1000 for a MatrixSSL client because MatrixSSL fragments Certificate messages only (DTLS_MUST_FRAG otherwise)',
                  'a MatrixSSL TLS<=1.2 server is not given a certificate chain signed with RSASSA-PSS (it only maps the legacy {hash,sig} pairs of signature_algorithms and declines, which RFC 5246 permits)',
                  'TLS 1.3 psk_ke with a MatrixSSL server is outside the negotiable matrix: an OpenSSL 3.0 client lists psk_dhe_ke whenever it lists psk_ke and the MatrixSSL server then takes psk_dhe_ke (counted as tls13-psk-ke-offered-by-openssl-client:...); external TLS 1.3 PSKs are not generated (tickets only)',
                  'zero-length application writes are not generated (both APIs reject or ignore them)',
                  'OpenSSL clients run with SSL_OP_LEGACY_SERVER_CONNECT because the default MatrixSSL build (USE_REHANDSHAKING off) does not answer RFC 5746'],
     targets=[dict(name='c10_interop', src=_SRC, libs=['-lssl', '-lcrypto'], wraps=WRAPS, env={'VERIF_DIR': '/verif'},
-                  quick=dict(cases=1440, secs=100), thorough=dict(cases=60000, secs=1080))],
+                  quick=dict(cases=1440, secs=100), thorough=dict(cases=60000, secs=1080)),
+             # every case of this build carries > 65536 records in one direction (about 1.5 s per case); thorough tier only
+             dict(name='c10_interop_long', src=_SRC, defs=['C10_LONG=1'], libs=['-lssl', '-lcrypto'], wraps=WRAPS, env={'VERIF_DIR': '/verif'},
+                  thorough=dict(cases=320, secs=300))],
 )
